@@ -63,8 +63,16 @@ type rdScenario struct {
 	Sets     []rdSet
 	Items    []Item
 	Hwm      int64
+	Topic    string // per-scenario topic name: separates the RL.* hook events of concurrently running scenarios
 	Slow     int // > 0: the application sleeps this many ms after every message (QueueCapacity fills up, the fetcher
 	// blocks in sendMessage, responses are drained slower than MaxWait: batches end with RequestTimedOut instead of EOF)
+}
+
+func (sc *rdScenario) topic() string {
+	if sc.Topic == "" {
+		return "t"
+	}
+	return sc.Topic
 }
 
 func itemFirst(it Item) int64 {
@@ -140,7 +148,7 @@ type rdBroker struct {
 func newRdBroker(sc *rdScenario) *rdBroker {
 	rb := &rdBroker{sc: sc, items: sc.Items, first: itemFirst(sc.Items[0]), leader: 1, seq: map[int]int{},
 		hwm3: make(chan struct{}), last: time.Now()}
-	rb.b = &Broker{FetchMax: int16(sc.Ver), Topic: "t"}
+	rb.b = &Broker{FetchMax: int16(sc.Ver), Topic: sc.topic()}
 	rb.b.OnConn = func(int) bool {
 		rb.mu.Lock()
 		rb.hang = false
@@ -359,7 +367,7 @@ func runReader(sc *rdScenario) string {
 		Logger:      logger,
 		ErrorLogger: errLogger,
 		Brokers:     []string{"fake:9092"},
-		Topic:       "t",
+		Topic:       sc.topic(),
 		Partition:   0,
 		Dialer: &kafka.Dialer{DialFunc: func(ctx context.Context, network, addr string) (net.Conn, error) {
 			c, _ := rb.b.Dial()
@@ -676,6 +684,10 @@ func readerCases(r *rand.Rand, thorough bool) {
 		}
 		scs = sel
 	}
+	for i, sc := range scs {
+		sc.Topic = fmt.Sprintf("t%d", i)
+	}
+	kafka.VerifStart()
 	res := make([]string, len(scs))
 	var wg sync.WaitGroup
 	work := make(chan int)
@@ -693,7 +705,56 @@ func readerCases(r *rand.Rand, thorough bool) {
 	}
 	close(work)
 	wg.Wait()
+	events := kafka.VerifStop()
 	for i, sc := range scs {
 		emit(sc.args(), res[i])
+	}
+	emitTraces(scs, events)
+}
+
+// emitTraces: op `rtrace` — the RL.* hook events of every fetcher goroutine ((*reader).run) of every scenario, one line
+// per fetcher: the oracle replays them through the loop LTS of Model/ReaderRun.lean (`rstep`), which must agree with
+// the recorded attempt / errcount / offset / conn offset at every step, and checks the `Good` hypotheses of the
+// loop theorems on the recorded fetch rounds.
+func emitTraces(scs []*rdScenario, events []kafka.VerifEvent) {
+	type key struct{ topic, fetcher string }
+	traces := map[key][]string{}
+	var order []key
+	for _, e := range events {
+		if !strings.HasPrefix(e.Kind, "RL.") || len(e.Args) < 2 {
+			continue
+		}
+		k := key{e.Args[1], e.Args[0]}
+		if _, ok := traces[k]; !ok {
+			order = append(order, k)
+		}
+		ev := strings.TrimPrefix(e.Kind, "RL.") + ":" + strings.Join(e.Args[2:], ":")
+		t := traces[k]
+		// idle polling (and any other exact repetition of an iteration without messages) is recorded once
+		if n := len(t); n >= 3 && strings.HasPrefix(ev, "Read:") && t[n-1] == t[n-3] && strings.HasPrefix(t[n-1], "Iter:") && t[n-2] == ev {
+			traces[k] = t[:n-1]
+			continue
+		}
+		if len(t) < 600 {
+			traces[k] = append(t, ev)
+		}
+	}
+	byTopic := map[string]*rdScenario{}
+	for _, sc := range scs {
+		byTopic[sc.topic()] = sc
+	}
+	nth := map[string]int{}
+	for _, k := range order {
+		sc := byTopic[k.topic]
+		if sc == nil {
+			continue
+		}
+		nth[k.topic]++
+		tr := "-"
+		if sc.TruncIdx >= 0 {
+			tr = fmt.Sprintf("%d", sc.TruncN)
+		}
+		emit(fmt.Sprintf("rtrace sc=%s f=%d hwm=%d truncn=%s L=%s T=%s", k.topic, nth[k.topic], sc.Hwm, tr, layoutText(sc.Items),
+			strings.Join(traces[k], ";")), "ok")
 	}
 }
